@@ -46,7 +46,9 @@ func hammerJobs(r *Rng) ([]hammerJob, []interface{}) {
 			treeDump(t.PolyPathBase, 1, &s)
 			return fmt.Sprint(s)
 		}},
-		{"BooleanOpPathsD", func() string { return fmt.Sprint(clip.BooleanOpPathsD(clip.Difference, ad, clip.Paths64ToPathsD(b), clip.NonZero, 1)) }},
+		{"BooleanOpPathsD", func() string {
+			return fmt.Sprint(clip.BooleanOpPathsD(clip.Difference, ad, clip.Paths64ToPathsD(b), clip.NonZero, 1))
+		}},
 		{"InflatePaths64", func() string { return fmt.Sprint(clip.InflatePaths64(a, dlt, jt, etClosed)) }},
 		{"InflatePaths64-open", func() string { return fmt.Sprint(clip.InflatePaths64(line, 5, jt, etOpen)) }},
 		{"InflatePaths64-ring-as-open", func() string { return fmt.Sprint(clip.InflatePaths64(a[:1], 3, jt, etOpen)) }},
@@ -60,7 +62,9 @@ func hammerJobs(r *Rng) ([]hammerJob, []interface{}) {
 			co.Execute64(-2, &s)
 			return fmt.Sprint(s)
 		}},
-		{"MinkowskiSum64", func() string { return fmt.Sprint(clip.MinkowskiSum64(pat, a[0], true), clip.MinkowskiDiff64(pat, a[0], false)) }},
+		{"MinkowskiSum64", func() string {
+			return fmt.Sprint(clip.MinkowskiSum64(pat, a[0], true), clip.MinkowskiDiff64(pat, a[0], false))
+		}},
 		{"RectClipPaths64", func() string { return fmt.Sprint(clip.RectClipPaths64(rect, a), clip.RectClipLinesPaths64(rect, line)) }},
 		{"rectclip-object", func() string {
 			rc := clip.NewRectClip64(rect)
@@ -79,9 +83,52 @@ func hammerJobs(r *Rng) ([]hammerJob, []interface{}) {
 	return jobs, []interface{}{a, b, line, pat, ad}
 }
 
+// jobs with nothing shared at all: goroutine v builds its own inputs and draws its own parameter
+// values (step counts, deltas, arc tolerances, fill rules, rectangles), so that calls with
+// DIFFERENT arguments overlap in time — state remembered from one call to the next (a cache keyed
+// on the last arguments, a reused buffer) only shows when the arguments differ
+func variantJobs(seed uint64, round, v int) []hammerJob {
+	r := NewRng(seed, "c18v", round*64+v)
+	g := GenCfg{Grid: 6, Unit: 10}
+	a := genPaths(r, g, 2, 6)
+	line := clip.Paths64{genPolyline(r, g)}
+	pt := clip.Paths64{{g.pt(r)}}
+	steps := []int{96, 12, 64, 20, 48, 7, 80, 33}[v%8]
+	delta := float64(5 + 7*(v%8))
+	arc := 0.25 / float64(1+v%4)
+	fr := clip.FillRule(v % 4)
+	rect := clip.NewRect64(int64(5+v%8), int64(10-v%8), int64(40+v%8), int64(45-v%8))
+	return []hammerJob{
+		{"own:Ellipse", func() string {
+			return fmt.Sprint(clip.Ellipse64(P{X: int64(v), Y: 5}, float64(1000+100*v), 500, steps), clip.EllipseD(clip.PointD{X: 1, Y: float64(v)}, float64(100+v), 50, steps), clip.Ellipse64(P{}, float64(10+30*(v%8)), 20, 0))
+		}},
+		{"own:inflate-point-round", func() string { return fmt.Sprint(clip.InflatePaths64(pt, delta, clip.Round, clip.RoundET)) }},
+		{"own:inflate-round", func() string {
+			return fmt.Sprint(clip.InflatePaths64(a, delta/4, clip.Round, clip.Polygon), clip.InflatePaths64(line, delta/3, clip.Round, clip.RoundET))
+		}},
+		{"own:offset-object", func() string {
+			co := clip.NewClipperOffset(2, arc, v%2 == 0, v%3 == 0)
+			co.AddPaths(a, clip.Round, clip.Polygon)
+			co.AddPaths(pt, clip.Round, clip.RoundET)
+			var s clip.Paths64
+			co.Execute64(delta/5, &s)
+			return fmt.Sprint(s)
+		}},
+		{"own:boolean", func() string {
+			return fmt.Sprint(clip.BooleanOpPaths64(clip.ClipType(1+v%4), a, line, fr), clip.UnionPaths64(a, fr))
+		}},
+		{"own:rectclip", func() string {
+			return fmt.Sprint(clip.RectClipPaths64(rect, a), clip.RectClipLinesPaths64(rect, line))
+		}},
+		{"own:minkowski-simplify", func() string {
+			return fmt.Sprint(clip.MinkowskiSum64(clip.Path64{{X: 0, Y: 0}, {X: int64(1 + v%8), Y: 0}, {X: 0, Y: int64(2 + v%4)}}, a[0], true), clip.SimplifyPaths64(a, float64(v%4), true), clip.ScalePaths64ToPathsD(a, 1/float64(1+v%8)))
+		}},
+	}
+}
+
 func init() {
 	stages["c18-hammer"] = func(ctx *Ctx, cnt func(q, t int) int, replay string) Result {
-		col := NewCollector("C18", "hammer", "race-detector build: 32 goroutines × rounds call 16 job kinds (package-level functions, their own engine / offset / rect-clip objects; join type, end type incl. Joined on closed rings, and delta drawn per round) on shared read-only inputs; each result is compared with the sequential result of the same job and the shared inputs are compared with their state before the round; non-trivial = every job (all produce non-empty output); the race detector aborts the process on any data race")
+		col := NewCollector("C18", "hammer", "race-detector build: 32 goroutines × rounds call 16 job kinds (package-level functions, their own engine / offset / rect-clip objects; join type, end type incl. Joined on closed rings, and delta drawn per round) on shared read-only inputs, and 7 further job kinds on inputs and parameter values of its own (step counts, deltas, arc tolerances, fill rules, rectangles differ between goroutines, nothing is shared); each result is compared with the sequential result of the same job and the shared inputs are compared with their state before the round; non-trivial = every job (all produce non-empty output); the race detector aborts the process on any data race")
 		rounds := cnt(40, 1500)
 		for round := 0; round < rounds; round++ {
 			r := NewRng(ctx.Seed, "c18", round)
@@ -91,11 +138,28 @@ func init() {
 			for i, j := range jobs {
 				want[i] = j.f()
 			}
+			// sequential results of the goroutines' own jobs (fresh, equal-valued inputs)
+			wantOwn := make([][]string, 32)
+			for v := range wantOwn {
+				for _, j := range variantJobs(ctx.Seed, round, v) {
+					wantOwn[v] = append(wantOwn[v], j.f())
+				}
+			}
 			var wg sync.WaitGroup
 			for gidx := 0; gidx < 32; gidx++ {
 				wg.Add(1)
 				go func(gidx int) {
 					defer wg.Done()
+					own := variantJobs(ctx.Seed, round, gidx)
+					for rep := 0; rep < 3; rep++ {
+						for k, j := range own {
+							got := j.f()
+							col.Eval(fmt.Sprint(round, gidx, j.name, rep), true, "job="+j.name)
+							if got != wantOwn[gidx][k] && !col.KindFull("concurrent-result") {
+								col.Violate(Violation{Property: "C18", Kind: "concurrent-result", Signature: sigOf(fmt.Sprint(round, gidx, k)), Detail: fmt.Sprintf("%s (goroutine %d, its own inputs and parameters) returned %s while 31 other goroutines ran the same function with other arguments, but %s alone", j.name, gidx, trunc(got, 200), trunc(wantOwn[gidx][k], 200)), Case: map[string]interface{}{"round": round, "goroutine": gidx, "job": j.name}, Stream: "c18", Index: round, Seed: ctx.Seed})
+							}
+						}
+					}
 					for k := 0; k < len(jobs); k++ {
 						i := (gidx + k) % len(jobs)
 						got := jobs[i].f()
